@@ -127,10 +127,11 @@ class State:
 class Reader:
     """Symbolic reader of one function (with inlining of repo callees that have bodies)."""
 
-    def __init__(self, facts, field_init=None, call_hook=None, max_paths=64, max_depth=6, type_hook=None):
+    def __init__(self, facts, field_init=None, call_hook=None, max_paths=64, max_depth=6, type_hook=None, member_hook=None):
         self.facts = facts
         self.field_init = field_init      # path -> initial value or None (default: a fresh symbol)
         self.call_hook = call_hook        # (reader, node, state, args) -> value or NotImplemented
+        self.member_hook = member_hook    # (reader, node, path, state) -> value or NotImplemented (reads of whole fields)
         self.max_paths = max_paths
         self.max_depth = max_depth
         self.read_fields = set()
@@ -159,6 +160,19 @@ class Reader:
         if fn.get('ctor'):
             states = [st]
             for i in fn.get('inits', []):
+                if i.get('base') and i.get('e') is not None:
+                    # base-class sub-object built by a repo constructor: same `this`
+                    e0 = strip_casts(i['e'])
+                    sub = self.facts.functions.get(e0.get('fk')) if e0.get('k') == 'Construct' and e0.get('inrepo') and e0.get('fk') else None
+                    if sub is not None and sub.get('body') is not None and depth < self.max_depth:
+                        nxt = []
+                        for s in states:
+                            for (vals, s2) in self.evs_args(e0.get('args', []), sub.get('params', []), s, ctx):
+                                for fs in self.run(sub, vals, this, s2, depth + 1):
+                                    fs.returned, fs.ret = False, None
+                                    nxt.append(fs)
+                        states = nxt
+                    continue
                 if i.get('field') and i.get('e') is not None:
                     nxt = []
                     e0 = strip_casts(i['e'])
@@ -389,6 +403,10 @@ class Reader:
             lv = self.lvalue(e, st, ctx)
             if lv and lv[0] == 'field':
                 self.field_types[lv[1]] = e['t']['s']
+                if self.member_hook is not None:
+                    hv = self.member_hook(self, e, lv[1], st)
+                    if hv is not NotImplemented:
+                        return [(hv, st)]
                 return [(self.get_field(lv[1], st, e['t']), st)]
             if lv and lv[0] == 'local':
                 return [(st.locals.get(lv[1], Opaque(pp(e))), st)]
@@ -513,6 +531,15 @@ class Reader:
 
     def arith(self, op, a, b, e):
         if isinstance(a, Cont) or isinstance(b, Cont) or not isinstance(a, sp.Basic) or not isinstance(b, sp.Basic):
+            return Opaque(pp(e))
+        if isinstance(a, sp.MatrixBase) or isinstance(b, sp.MatrixBase):
+            try:
+                if op == '+': return sp.ImmutableMatrix(a + b)
+                if op == '-': return sp.ImmutableMatrix(a - b)
+                if op == '*': return sp.ImmutableMatrix(a * b) if isinstance(a, sp.MatrixBase) or isinstance(b, sp.MatrixBase) else a * b
+                if op == '/' and not isinstance(b, sp.MatrixBase): return sp.ImmutableMatrix(a / b)
+            except Exception:
+                return Opaque(pp(e))
             return Opaque(pp(e))
         try:
             if op == '+': return a + b
